@@ -10,6 +10,8 @@ import (
 	"net/http/httptest"
 	"net/netip"
 	"sort"
+	"strconv"
+	"strings"
 	"sync"
 	"testing"
 	"testing/synctest"
@@ -323,12 +325,35 @@ func trimBrackets(s string) string {
 }
 
 func dnsAnswer(ctx context.Context, m map[string]string, addr string) ([]string, error) {
+	return dnsAnswerN(ctx, m, addr, 1)
+}
+
+// dnsAnswerN: the scripted resolver's answer to the n-th lookup of addr. "a;b" = a for the first call, b afterwards;
+// "+<ms>:x" = x after ms milliseconds; "!e" failure; "~" stall until the context ends; "" empty list; "n1,n2" names.
+func dnsAnswerN(ctx context.Context, m map[string]string, addr string, n int) ([]string, error) {
 	v, ok := m[addr]
 	if !ok {
 		v, ok = m["*"]
 	}
 	if !ok {
 		return nil, &net.DNSError{Err: "no such host", Name: addr, IsNotFound: true}
+	}
+	if parts := strings.Split(v, ";"); len(parts) > 1 {
+		if n > len(parts) {
+			n = len(parts)
+		}
+		v = parts[n-1]
+	}
+	if len(v) > 0 && v[0] == '+' {
+		if i := strings.IndexByte(v, ':'); i > 0 {
+			ms, _ := strconv.Atoi(v[1:i])
+			v = v[i+1:]
+			select {
+			case <-time.After(time.Duration(ms) * time.Millisecond):
+			case <-ctx.Done():
+				return nil, ctx.Err()
+			}
+		}
 	}
 	if len(v) > 0 && v[0] == '!' {
 		return nil, errors.New("injected-dns-failure " + v[1:])
